@@ -178,6 +178,12 @@ impl<'a> Ctx<'a> {
                     Generic::Reg(_) => {
                         let sig = self.trait_sig(&name)?;
                         self.calls.insert(("R".to_string(), "T".to_string(), name.clone()));
+                        if self.reg.transpose_methods.contains_key(&name) && !self.reg.simd_methods.contains_key(&name) {
+                            if !self.has_rt {
+                                self.err(func.span(), "TransposeMatrix method called without a TransposeMatrix bound");
+                            }
+                            return Some(Target::Fn { head: format!("RT.{name}"), sig, monadic: true });
+                        }
                         return Some(Target::Fn { head: format!("{head}.{name}"), sig, monadic: true });
                     },
                     Generic::Math(_) => {
@@ -292,27 +298,64 @@ impl<'a> Ctx<'a> {
         }
         // registered free functions (possibly `super::module::name::<T, R, M>`)
         if let Some(sig) = self.reg.fns.get(&name).cloned() {
+            // a routine for one concrete element type called on a transmuted view of `[T]`
+            let concrete_slices = sig.params.iter().any(|(_, t)| match t {
+                Ty::Slice(e) | Ty::MutSlice(e) => matches!(&**e, Ty::Scalar(s) if is_concrete_scalar(s)),
+                _ => false,
+            });
+            if self.view_calls && concrete_slices {
+                if !self.ext_calls.contains(&name) {
+                    self.ext_calls.push(name.clone());
+                }
+                let mut s2 = sig.clone();
+                for p in s2.params.iter_mut() {
+                    p.1 = match &p.1 {
+                        Ty::Slice(_) => Ty::Slice(Box::new(Ty::Scalar("T".into()))),
+                        Ty::MutSlice(_) => Ty::MutSlice(Box::new(Ty::Scalar("T".into()))),
+                        o => o.clone(),
+                    };
+                }
+                return Some(Target::Fn { head: format!("ext_{name}"), sig: s2, monadic: true });
+            }
             let mut head = sig.lean_name.clone();
             if sig.takes_env {
                 head.push_str(" E");
             }
             let gargs = self.generic_arg_strings(last_seg);
             let mut gi = 0usize;
+            let mut call_elem: Option<String> = None;
             for g in &sig.generics {
                 let ga = gargs.get(gi).map(|a| tok(a).replace(' ', ""));
                 gi += 1;
                 match g {
-                    Generic::Type(_) => {},
+                    Generic::Type(_) => {
+                        if let Some(a) = &ga {
+                            if is_concrete_scalar(a) {
+                                call_elem = Some(a.clone());
+                            }
+                        }
+                    },
                     Generic::Const(_) => {
                         if let Some(a) = ga {
                             head.push_str(&format!(" {a}"));
                         }
                     },
                     Generic::Reg(_) | Generic::Math(_) => match ga {
-                        Some(a) if self.dicts.contains_key(&a) => head.push_str(&format!(" {a}")),
+                        Some(a) if self.dicts.contains_key(&a) => {
+                            head.push_str(&format!(" {a}"));
+                            if self.reg.transpose_fns.contains(&name) {
+                                head.push_str(" RT");
+                            }
+                        },
                         Some(a) if self.reg.reg_structs.contains_key(&a) => {
-                            let elem = self.elem.clone().unwrap_or_else(|| "T".into());
+                            let elem = call_elem.clone().or(self.elem.clone()).unwrap_or_else(|| "T".into());
                             head.push_str(&format!(" {}", self.reg_instance(&a, &elem)));
+                            if self.reg.transpose_fns.contains(&name) {
+                                if !self.reg.transpose_insts.contains(&(a.clone(), elem.clone())) {
+                                    self.err(func.span(), format!("no `impl TransposeMatrix<{elem}> for {a}`"));
+                                }
+                                head.push_str(&format!(" ({a}_{elem}.transposeInst E)"));
+                            }
                         },
                         Some(a) if a == "AutoMath" => {
                             let elem = self.elem.clone().unwrap_or_else(|| "T".into());
@@ -466,7 +509,7 @@ impl<'a> Ctx<'a> {
                 }
                 return (v, Ty::Usize);
             }
-            if ps.ends_with("TypeId::of") {
+            if ps.contains("TypeId::of") {
                 let ga = self.generic_arg_strings(last);
                 let t = ga.first().map(|a| tok(a).replace(' ', "")).unwrap_or_default();
                 let v = if t == "T" { "tyT".to_string() } else { format!("RTy.{t}") };
